@@ -28,6 +28,8 @@ pub enum E {
     /// error of the serde codec (bincode / JSON) while decoding
     Serde,
     Panic(String),
+    /// the caller-supplied random generator failed (fault injection) and the failure surfaced as its own panic
+    RngFault,
     Harness(String),
 }
 pub type R<T> = Result<T, E>;
